@@ -5,6 +5,7 @@ import (
 	"fmt"
 	"go/ast"
 	"go/token"
+	"go/types"
 	"os"
 	"os/exec"
 	"path/filepath"
@@ -78,6 +79,7 @@ func runC14(c *Ctx) {
 	R.Rule("C14.R2", "other partial operations on sanitising paths: no explicit panic, no non-comma-ok type assertion, no integer division, no channel operation; calls through func-valued policy fields and method calls on *regexp.Regexp rule fields only under a non-nil test")
 	R.Rule("C14.R3", "recursion is structural: the only cycles of the module call graph are self-recursive functions whose recursive argument is a strict suffix of their parameter")
 	R.Rule("C14.R4", "no unbounded backtracking: a function that calls itself inside a loop over its own argument (no memo table) has worst-case exponential cost; every external call site must pass an argument whose length is bounded by a constant on all paths")
+	R.Rule("C14.R6", "a value that comes with an error is used only where the error is nil: for every call on a sanitising path that returns (pointer or interface, error), each use of the value is unreachable from the err != nil edge of a test of that error (the edge must return, continue or break away first); a value whose error is never tested must not be used at all — otherwise a nil result is dereferenced (or handed to a callback) when the call fails")
 	R.Rule("C14.R5", "loops terminate by shape: every loop on a sanitising path is a range loop, a counted loop, the token loop, a strictly-shrinking-string/slice loop, or a listed exception with a written argument (removeUnicode's rewrite loop)")
 	R.Assume(TrustGo, "the Go compiler's prove pass is sound for the bounds checks it eliminates", "regexp contracts: FindString(s) is a substring of s; FindStringIndex(s) is nil or [lo,hi] with 0≤lo≤hi≤len(s); matching is linear (RE2)", "strings.Split/SplitN return at least one element; strings.Index* return -1 or a valid index",
 		"url.Parse(u) succeeds for u = (*url.URL).String() of a parsed URL (the rewriter path dereferences the re-parsed URL without checking the error)",
@@ -99,6 +101,7 @@ func runC14(c *Ctx) {
 	c14Partial(c, S)
 	c14Recursion(c, S)
 	c14Loops(c, S)
+	c14ErrValues(c, S)
 }
 
 // ---------------------------------------------------------------------------------------------
@@ -1149,4 +1152,124 @@ func downCounterNonNegative(p *ssa.Phi) bool {
 		}
 	}
 	return false
+}
+
+// c14ErrValues (C14.R6): results that come with an error are used only where the error is known to be nil.
+func c14ErrValues(c *Ctx, S map[*ssa.Function]bool) {
+	R := c.R
+	var fns []*ssa.Function
+	for fn := range S {
+		fns = append(fns, fn)
+	}
+	sortFuncs(fns)
+	errT := types.Universe.Lookup("error").Type()
+	n := 0
+	for _, fn := range fns {
+		cnt := 0
+		for _, b := range fn.Blocks {
+			for _, in := range b.Instrs {
+				cl, ok := in.(*ssa.Call)
+				if !ok {
+					continue
+				}
+				tup, ok := cl.Type().(*types.Tuple)
+				if !ok || tup.Len() != 2 || !types.Identical(tup.At(1).Type(), errT) {
+					continue
+				}
+				switch tup.At(0).Type().Underlying().(type) {
+				case *types.Pointer, *types.Interface:
+				default:
+					continue
+				}
+				var v0, v1 *ssa.Extract
+				for _, r := range *cl.Referrers() {
+					if ex, ok := r.(*ssa.Extract); ok {
+						if ex.Index == 0 {
+							v0 = ex
+						} else {
+							v1 = ex
+						}
+					}
+				}
+				if v0 == nil {
+					continue
+				}
+				var uses []ssa.Instruction
+				for _, r := range *v0.Referrers() {
+					if _, isDbg := r.(*ssa.DebugRef); !isDbg {
+						uses = append(uses, r)
+					}
+				}
+				if len(uses) == 0 {
+					continue
+				}
+				n++
+				cnt++
+				name := "call"
+				if cl.Common().StaticCallee() != nil {
+					name = pa.CalleeName(cl.Common().StaticCallee())
+				}
+				key := fmt.Sprintf("%s:%s#%d", shortFn(fn), name, cnt)
+				cons := fmt.Sprintf("%s: result of %s", shortFn(fn), name)
+				pos := c.P.Pos(cl.Pos())
+				// tests of the error
+				type test struct {
+					ifi  *ssa.If
+					fail int
+				}
+				var tests []test
+				if v1 != nil {
+					for _, r := range *v1.Referrers() {
+						bo, ok := r.(*ssa.BinOp)
+						if !ok || (bo.Op != token.NEQ && bo.Op != token.EQL) {
+							continue
+						}
+						other := bo.Y
+						if bo.Y == ssa.Value(v1) {
+							other = bo.X
+						}
+						if k, ok := other.(*ssa.Const); !ok || !k.IsNil() {
+							continue
+						}
+						for _, r2 := range *bo.Referrers() {
+							if ifi, ok := r2.(*ssa.If); ok {
+								f := 0
+								if bo.Op == token.EQL {
+									f = 1
+								}
+								tests = append(tests, test{ifi, f})
+							}
+						}
+					}
+				}
+				if len(tests) == 0 {
+					R.Fail("C14.R6", key, cons, pos, "the value is used although the error that comes with it is never tested: when the call fails the value is nil")
+					continue
+				}
+				bad := ""
+				useBlk := map[*ssa.BasicBlock]ssa.Instruction{}
+				for _, u := range uses {
+					useBlk[u.Block()] = u
+				}
+				for _, t := range tests {
+					seen := map[*ssa.BasicBlock]bool{}
+					stack := []*ssa.BasicBlock{t.ifi.Block().Succs[t.fail]}
+					for len(stack) > 0 && bad == "" {
+						x := stack[len(stack)-1]
+						stack = stack[:len(stack)-1]
+						if seen[x] || x == cl.Block() {
+							continue // back at the call: the value is recomputed
+						}
+						seen[x] = true
+						if u, ok := useBlk[x]; ok {
+							bad = fmt.Sprintf("the use at %s is reachable from the err != nil edge at %s", c.P.Pos(u.Pos()), c.P.Pos(lastPos(t.ifi.Block())))
+						}
+						stack = append(stack, x.Succs...)
+					}
+				}
+				R.Check(bad == "", "C14.R6", key, cons, pos, "every use lies beyond a return/continue of the err != nil edge", "the value can be used when the call has failed (nil dereference, or nil handed on): "+bad)
+			}
+		}
+	}
+	R.Role("C14.R6", "(value, error) calls whose value is used", n, 2)
 }
